@@ -767,6 +767,8 @@ pub fn process_request(input: &str, dbs: &Arc<Databases>, client: &mut Client) -
         elapsed
     );
     dbs.update_query_time_moving_avg(elapsed.as_millis());
+    #[cfg(nundb_verif)]
+    crate::verif_hooks::yield_point("apply->replicate");
     let replication_result = replicate_request(
         &dbs,
         request,
